@@ -137,6 +137,8 @@ type Gen struct {
 	assumedIdx []int
 	firedAnchors map[string]bool
 	ncallFresh int
+	globalAx []string
+	privObjs [][]target
 }
 
 func newGen(w *World, fn *ssa.Function, c *Contract) *Gen {
@@ -190,6 +192,12 @@ func (g *Gen) assume(guard, a string) {
 func (g *Gen) assumeProved(guard, a string) {
 	g.assumedIdx = append(g.assumedIdx, len(g.defs))
 	g.assume(guard, a)
+}
+
+// assumeGlobal: a fact about declared symbols only (no path condition); kept outside the ordered
+// context so that translation roll-backs cannot lose it
+func (g *Gen) assumeGlobal(a string) {
+	g.globalAx = append(g.globalAx, fmt.Sprintf("(assert %s)", a))
 }
 
 func (g *Gen) assumeAlways(a string) {
@@ -542,7 +550,9 @@ func (g *Gen) subRef(st types.Type, i int, r string) string {
 	key := "inj:" + t
 	if !g.prelSeen[key] {
 		g.prelSeen[key] = true
-		g.assumeAlways(fmt.Sprintf("(and (= (|%s_inv| %s) %s) (=> (< %s %s) (and (< 0 %s) (< %s %s))) (=> (>= %s %s) (>= %s %s)) (=> (not (= %s 0)) (not (= %s 0))))", fn, t, r, r, refBound, t, t, refBound, r, refBound, t, refBound, r, t))
+		g.needFldTag()
+		g.assumeGlobal(fmt.Sprintf("(= (fldtag %s) %d)", t, fldCode(fn)))
+		g.assumeGlobal(fmt.Sprintf("(and (= (|%s_inv| %s) %s) (=> (< %s %s) (and (< 0 %s) (< %s %s))) (=> (>= %s %s) (>= %s %s)) (=> (not (= %s 0)) (not (= %s 0))))", fn, t, r, r, refBound, t, t, refBound, r, refBound, t, refBound, r, t))
 	}
 	return t
 }
@@ -717,7 +727,7 @@ func (g *Gen) funcRef(f *ssa.Function) string {
 	if !g.prelSeen[key] {
 		g.prelSeen[key] = true
 		g.decls = append(g.decls, fmt.Sprintf("(declare-const |%s| Int)", name))
-		g.assumeAlways(fmt.Sprintf("(> |%s| 0)", name))
+		g.assumeGlobal(fmt.Sprintf("(> |%s| 0)", name))
 	}
 	return "|" + name + "|"
 }
@@ -737,7 +747,7 @@ func (g *Gen) globalRef(x *ssa.Global) string {
 	if et := x.Type().(*types.Pointer).Elem(); types.TypeString(et, nil) == "error" && !g.prelSeen["errsentinel:"+key] {
 		g.prelSeen["errsentinel:"+key] = true
 		c, _ := g.cellComp(et)
-		g.assumeAlways(fmt.Sprintf("(= (select %s %s) %d)", g.entry[c], ref, 900000000+id))
+		g.assumeGlobal(fmt.Sprintf("(= (select %s %s) %d)", g.entry[c], ref, 900000000+id))
 		g.assumptions["package-level error sentinels (var Err... = errors.New(...)) are non-nil, pairwise distinct and never reassigned"] = true
 	}
 	return ref
@@ -787,12 +797,12 @@ func (g *Gen) stringConst(s string) string {
 		g.prelSeen[key] = true
 		g.decls = append(g.decls, fmt.Sprintf("(declare-const %s Slice)", name))
 		base := 500000000 + id
-		g.assumeAlways(fmt.Sprintf("(= %s (mk-slice %d %s %s %s))", name, base, g.idx(0), g.idx(int64(len(s))), g.idx(int64(len(s)))))
+		g.assumeGlobal(fmt.Sprintf("(= %s (mk-slice %d %s %s %s))", name, base, g.idx(0), g.idx(int64(len(s))), g.idx(int64(len(s)))))
 		// content for short strings
 		if len(s) <= 16 {
 			c, _ := g.memComp(types.Typ[types.Uint8])
 			for i := 0; i < len(s); i++ {
-				g.assumeAlways(fmt.Sprintf("(= (select (select %s %d) %s) %s)", g.entry[c], base, g.idx(int64(i)), g.num(int64(s[i]), types.Typ[types.Uint8])))
+				g.assumeGlobal(fmt.Sprintf("(= (select (select %s %d) %s) %s)", g.entry[c], base, g.idx(int64(i)), g.num(int64(s[i]), types.Typ[types.Uint8])))
 			}
 		}
 	}
@@ -1114,7 +1124,7 @@ func (g *Gen) copySlice(s string, et types.Type) string {
 	c, inner := g.memComp(et)
 	r := g.fresh("copy", "Slice")
 	g.nfresh++
-	base := fmt.Sprintf("%d", 1000000000+g.nfresh)
+	base := g.newRefNumeral()
 	g.assumeAlways(fmt.Sprintf("(= %s (mk-slice (ite (= (len %s) %s) 0 %s) %s (len %s) (len %s)))", r, s, g.idx(0), base, g.idx(0), s, s))
 	h := g.heapGet(c)
 	arr := g.fresh("copyarr", inner)
@@ -1442,6 +1452,19 @@ func (g *Gen) loopHead(b *ssa.BasicBlock, k int, li *loopInfo) {
 		fr.val[phi] = t
 		if phi.Comment != "" {
 			fr.named[phi.Comment] = phi
+		}
+		// counters that start at a constant c and are only ever incremented by a positive constant
+		// (the index of a range loop: -1, +1 per iteration) stay >= c: a structural inductive fact
+		if lo, bound, ok := rangeCounter(phi); ok && isInteger(phi.Type()) && isSigned(phi.Type()) {
+			g.assumeAlways(g.le(g.num(lo, phi.Type()), t, true))
+			if bound != nil {
+				// phi < n, or phi is still the start value (n <= start+1)
+				if bt, have := fr.val[bound]; have {
+					g.assumeAlways(fmt.Sprintf("(or %s (= %s %s))", g.lt(t, bt, true), t, g.num(lo, phi.Type())))
+				} else if _, isConst := bound.(*ssa.Const); isConst {
+					g.assumeAlways(fmt.Sprintf("(or %s (= %s %s))", g.lt(t, g.term(bound), true), t, g.num(lo, phi.Type())))
+				}
+			}
 		}
 	}
 	// havoc heap components modified in the loop body
